@@ -1,6 +1,15 @@
 package main
 
+import (
+	"verif/harness/fam/creds"
+	"verif/harness/fam/prov"
+	"verif/harness/fam/shapes"
+)
+
 // registerMore registers the families added after C18 (kept in a separate file so that each
 // family is one line).
 func registerMore(c map[string]func(args []string) error) {
+	creds.Register(c)
+	prov.Register(c)
+	shapes.Register(c)
 }
